@@ -86,7 +86,10 @@ class LasAppender:
         if not points:
             return
 
-        if points.point_format != self.header.point_format:
+        if (
+            points.point_format != self.header.point_format
+            or points.point_size != self.header.point_format.size
+        ):
             raise LaspyException("Point formats do not match")
 
         if self.header.max_point_count() - self.header.point_count < len(points):
